@@ -511,6 +511,8 @@ class G:
             nm = "ghosts" if not self.pr("ghost_flavour", 0.3) else self.ch(["ghosts_owned", "ghosts_ref"])
             gs = ", ".join(self.ch([f"X{k}: {{ E::V0 }}", f"Y{k}(..): {{ todo!() }}", f"Z{k}{{ a, .. }}: {{ E::V1(a) }}", f"W{k}: {{ @.def() }}"] + ([f"{k}: {{ E::V0 }}"] if self.pr("enum_ghost_idx", 0.0) else [])) for k in range(r.randrange(1, 3)))
             attrs.append(Instr(nm, ded + gs, tag=("ghosts", None)))
+        if self.pr("cp_on_enum", 0.0):
+            attrs.append(Instr("child_parents", self.ch(["p: P", "p: P, p.q: m::Q", "A| p: P"]), tag=("cp", None)))
         vs = []
         nv = r.randrange(self.p.get("min_variants", 1), self.p.get("max_variants", 4) + 1)
         for k in range(nv):
@@ -566,6 +568,18 @@ class G:
                         vat[-1].args = self.ch([None, "", "map", "ghost", "type_hint"])
             fields = [Field(NAMES[m] if shape == "named" else None, self.ch(TYPES),
                             self.field_attrs(cparts, True, target_named=(shape == "named"), nfields=nf, is_variant_field=True)) for m in range(nf)]
+            if not prim and fields and self.pr("variant_struct_instr", 0.0):
+                # instructions that belong to structs, written inside an enum: a flattened payload member, a nested-struct
+                # ghost at variant level, a #[parent(..)] list on a payload member (of a path / a tuple / a reference type)
+                what = self.ch(["child", "child", "ghosts", "ghosts", "parent", "parent"])
+                if what == "child":
+                    self.ch(fields).attrs.append(Instr("child", self.ch(["p", "p.q", "A| p", "0"]), tag=("child", None)))
+                elif what == "ghosts":
+                    vat.append(Instr(self.ch(["ghosts", "ghosts_owned", "ghosts_ref"]), self.ch(["p@x: { 1 }", "p.q@0: { 1 }, y: { 2 }", "A| p@x: { 1 }"]), tag=("ghosts", None)))
+                else:
+                    f = self.ch(fields)
+                    f.attrs.append(Instr("parent", self.ch([None, "x, y", "[parent(z)] x: Q", "A| x, [map(w)] y", "0, 1"]), tag=("parent", None)))
+                    f.ty = self.ch([f.ty, "(i32, u8)", "&'a Base", "[u8; 2]", "Base"])
             if not prim and shape != "unit" and self.pr("shape_change", 0.0):
                 vat = [a for a in vat if a.name != "type_hint"]
                 vat.append(Instr("type_hint", "as " + ("{}" if shape == "tuple" else "()"), tag=("th", None)))
@@ -881,13 +895,15 @@ PROFILES = {
                 "dedicated": 0.45, "member_instr": 0.3, "update": 0.1, "vars": 0.1, "generic_cpart": 0.25, "second_parent": 0.5, "attr_params": 0.25, "child_pair": 0.2},
     "trait-repeat": {"vars": 0.4, "fallible": 0.3, "attr_params": 0.1, "enum_item": 0.3, "lit": 0.3, "multi_open": 0.12, "twin_names": 0.2},
     "shape-change": {"shape_change": 0.8, "update": 0.3, "shape_bare_ghost": 0.35, "shape_nameless": 0.25, "shape_multi": 0.5, "shape_mixed": 0.5, "shape_forget": 0.3, "multi_cpart": 0.4, "shape_ghost": 0.3, "fallible": 0.3, "max_variants": 3, "variant_map": 0.1, "member_try": 0.1, "multi_instr": 0.5},
+    "enum-misuse": {"max_variants": 3, "member_instr": 0.2, "variant_map": 0.2, "type_hint": 0.15, "fallible": 0.3, "multi_cpart": 0.2, "dedicated": 0.3,
+                    "variant_struct_instr": 0.7, "cp_on_enum": 0.3},
     "unknowns": {"unknowns": 1.0, "max_fields": 3, "member_instr": 0.3, "multi_instr": 0.5, "max_variants": 3, "variant_map": 0.2},
     "faults": {"max_fields": 3, "member_instr": 0.4, "multi_cpart": 0.3, "fallible": 0.4, "drop_err": 0.15, "extra_err": 0.1, "ghost_field": 0.2, "ghost_default": 0.5,
                "dedicated": 0.4, "ghosts": 0.3, "stray_child_ghost": 0.4, "ghost_flavour": 0.5, "where_clause": 0.2, "hints": 0.4, "drop_child_parents": 0.3, "drop_cp_entry": 0.2, "type_hint": 0.3,
                "cp_unit": 0.08, "enum_ghost_idx": 0.3},
 }
 
-KINDS_OF_ITEM = {"shape-change": ["struct", "enum"], "unknowns": ["struct", "enum"], "parents": ["tree"], "trait-repeat": ["trait_repeat"], "enum": ["enum"], "enum-members": ["enum"], "enum-prim": ["enum"], "tree": ["tree"], "repeat": ["struct", "enum"], "multi-counterpart": ["struct", "enum", "tree"],
+KINDS_OF_ITEM = {"enum-misuse": ["enum"], "shape-change": ["struct", "enum"], "unknowns": ["struct", "enum"], "parents": ["tree"], "trait-repeat": ["trait_repeat"], "enum": ["enum"], "enum-members": ["enum"], "enum-prim": ["enum"], "tree": ["tree"], "repeat": ["struct", "enum"], "multi-counterpart": ["struct", "enum", "tree"],
                  "trait-params": ["struct", "enum"], "generics": ["struct", "enum"], "expr": ["struct", "enum"], "faults": ["struct", "enum", "tree"],
                  "traits": ["struct", "enum"], "struct-flat": ["struct"], "member-instrs": ["struct"]}
 
